@@ -323,6 +323,43 @@ Theorem C14_h3_one_reader_for_both_ways :
 Proof. exact h3_one_reader_for_both_ways. Qed.
 Print Assumptions C14_h3_one_reader_for_both_ways.
 
+(* ---------- several clients (Client.Clone) ---------- *)
+
+(* what client k gets depends on client k's own settings only, whatever the original and the other
+   clones are set to *)
+Theorem C14_clients_independent : forall st cs1 cs2 k q ended r,
+  nth_error cs1 k = nth_error cs2 k ->
+  client_exchange st cs1 k q ended r = client_exchange st cs2 k q ended r.
+Proof. exact clients_independent. Qed.
+Print Assumptions C14_clients_independent.
+
+Theorem C14_client_exchange_is_respond : forall st cs k s q ended r,
+  nth_error cs k = Some s ->
+  client_exchange st cs k q ended r = Some (respond st (cfg_under s q) (set_auto s) ended r).
+Proof. exact client_exchange_is_respond. Qed.
+Print Assumptions C14_client_exchange_is_respond.
+
+(* Transport.Clone builds the clone's HTTP/2 transport field by field - its own connection pool
+   (table regenerated from transport.go on every run) *)
+Theorem C14_clone_gets_its_own_h2_transport :
+  clone_h2_transport_assignments =
+  [ (bs "tt.t2", bs "=",
+     bs "&h2internal.Transport{Options,AllowHTTP,MaxHeaderListSize,StrictMaxConcurrentStreams,ReadIdleTimeout,PingTimeout,WriteByteTimeout,ConnectionFlow,Settings,HeaderPriority,PriorityFrames}") ].
+Proof. exact clone_gets_its_own_h2_transport. Qed.
+Print Assumptions C14_clone_gets_its_own_h2_transport.
+
+(* clones sharing the original's HTTP/2 connection pool (NOT the code) *)
+Theorem C14_shared_pool_refuted :
+  client_exchange_shared_h2_pool H2 [s_off; s_on] 1 q_plain false r_deflate = Some r_deflate /\
+  option_map r_body (client_exchange_shared_h2_pool H1 [s_off; s_on] 1 q_plain false r_deflate) =
+    Some (Lazy Deflate (bs "dddd")) /\
+  option_map r_body (client_exchange H2 [s_off; s_on] 1 q_plain false r_deflate) =
+    Some (Lazy Deflate (bs "dddd")) /\
+  client_exchange_shared_h2_pool H2 [s_off; s_on] 1 q_plain false r_deflate <>
+  client_exchange_shared_h2_pool H2 [s_on; s_on] 1 q_plain false r_deflate.
+Proof. exact shared_pool_refuted. Qed.
+Print Assumptions C14_shared_pool_refuted.
+
 (* ---------- several responses alive at the same time (Model/DecodeSession.v) ---------- *)
 
 (* the reader state is per response: in ANY interleaving of ReadFull and Close operations over ANY
